@@ -236,6 +236,23 @@ class C09(Property):
             c['free']['prefix-radix'] = rng.choice([2, 60, None, 10])
             c['version'] = rng.choice([1, 2])
             yield {'kind': 'objecttype', 'defs': [a, b, c]}
+        for i in range(6 if tier == 'quick' else 100):
+            # a relation whose confidence is the default, left out (create_relation without a confidence) or written out,
+            # next to another confidence; as a definition of its own and inside an event type
+            kind = ['relation', 'eventtype'][i % 2]
+            a = G.base_of(kind)
+            b = json.loads(json.dumps(a))
+            c = json.loads(json.dumps(a))
+            if kind == 'eventtype':
+                for s_ in (a, b, c):
+                    s_['relations'] = [G.base_relation('p', 'q')]
+                    G.fix_relations(s_)
+            ra, rb, rc = [(s_['def'] if kind == 'relation' else s_['relations'][0]) for s_ in (a, b, c)]
+            ra['free']['confidence'], rb['free']['confidence'] = None, 10
+            rc['free']['confidence'] = rng.choice([None, 10, 3])
+            ver = 'etVersion' if kind == 'relation' else 'version'
+            c[ver] = c[ver] + rng.choice([0, 1])
+            yield {'kind': kind, 'defs': [a, b, c]}
         for kind in G.KINDS:
             for i in range(n if kind != 'eventtype' else 2 * n):
                 a = G.base_of(kind)
@@ -326,7 +343,7 @@ class C09(Property):
         m = replies[0]['cmp']
         kind = case['kind']
         defs = case['defs']
-        xml_key = [json.dumps(s['def'] if 'def' in s else G.norm_spec(kind, s), sort_keys=True) for s in defs]
+        xml_key = [json.dumps(G.norm_spec(kind, s)['def'] if 'def' in s else G.norm_spec(kind, s), sort_keys=True) for s in defs]
         root = kind in ('concept', 'source', 'objecttype', 'eventtype')
         return {'ops': [[expected_ops(c) for c in row] for row in m], 'pure': True,
                 'same_xml': [[x == y for y in xml_key] for x in xml_key],
